@@ -43,14 +43,14 @@ PARTIAL = [
     "by the dense oracle only; the Lean theorems speak about structure, leg labels and shapes",
     "QR / SVD factorisation contracts (Q.R = M, U.S.Vh = M untruncated) are external; validated on every live "
     "split by the dense comparison",
-    "proved: Node-machine invariant and one spec per Node method; leg order / children / parent / well-formedness "
-    "of the node built by contract_nodes (both argument orders) and of both nodes built by split_nodes (all six "
-    "parent/root configurations). NOT proved: graph-level invariants of the TTN model (one root, symmetric links, "
-    "equal key sets, facing bond labels) through replace_node_in_neighbours / replace_node_in_some_neighbours, and "
-    "their preservation over arbitrary operation lists (ops_preserve_wf); these are covered by the exact "
-    "correspondence after every operation plus dense.well_formed on the implementation",
-    "insert_identity, change_node_identifier, replace_tensor and the TensorDict access are modelled and "
-    "corresponded at the TTN level; only their Node-level parts (replace_tensor, _reset_permutation) are proved",
+    "proved at the graph level (ops_preserve_wf): one root, symmetric links, tree, equal key sets, Node invariant, "
+    "recorded shape = stored shape, for arbitrary admissible histories. NOT part of the proved invariant: that the "
+    "two axes of a bond carry the same label / dimension at both ends and that the open labels of the whole "
+    "network stay a permutation of the original ones (label placement is proved per node: "
+    "create_contracted_node_spec, split_*_node_*_spec); globally these are checked by correspondence (open-label "
+    "order and shapes after every op) and by the dense oracle",
+    "progress (admissible calls never raise) is not proved: the theorems are of the form 'if the model call "
+    "returns a network, it is well-formed'; the harness reports every exception on an admissible call",
     "child order after split_nodes / insert_identity is not documented: compared with the model "
     "(correspondence), not demanded by the oracle",
     "behaviour on inadmissible arguments is only sampled by the malformed stream (must raise; network "
